@@ -26,8 +26,8 @@ import vcheck
 
 LEVEL = "proof"
 
-MODEL_FILES = ["Overrides/F64.v", "Overrides/Spec.v", "Overrides/Model.v", "Overrides/Proofs.v",
-               "Overrides/FloatProofs.v", "Overrides/GenOblig.v"]
+MODEL_FILES = ["Overrides/F64.v", "Overrides/Spec.v", "Overrides/Model.v", "Overrides/FloatProofs.v",
+               "Overrides/FloatProofs32.v", "Overrides/FloatLink.v", "Overrides/Proofs.v", "Overrides/GenOblig.v"]
 
 
 # ------------------------------------------------------------------ helpers
@@ -98,8 +98,22 @@ def node_class(e, decls):
     if k == 2:
         return "const-ref"
     if k == 3:
-        return "%s:%s" % (G.raw_tyname(e[2], decls), "unary" + G.UOPS[e[1]])
-    return "%s:%s" % (G.raw_tyname(e, decls, operand=True), G.BOPS[e[1]])
+        t = G.raw_tyname(e[2], decls)
+        if t.startswith("abstract") and e[1] != G.NEG:
+            t = G.TYNAME[G.infer_ty(e[2], decls)]
+        return "%s:%s" % (t, "unary" + G.UOPS[e[1]])
+    t = G.raw_tyname(e, decls, operand=True)
+    if t.startswith("abstract") and e[1] not in (G.ADD, G.SUB, G.MUL, G.DIV):
+        t = G.TYNAME[G.operand_ty(e, decls)]      # an unimplemented operator fails whatever the literals' kinds
+    return "%s:%s" % (t, G.BOPS[e[1]])
+
+
+def strip_type(cls):
+    """operator class without the operand type (function-level and MSL keys)"""
+    parts = cls.split(":")
+    if parts[0] in ("bool", "i32", "u32", "f32", "abstract-int", "abstract-float") and len(parts) > 1:
+        return ":".join(parts[1:])
+    return cls
 
 
 class Case:
@@ -143,6 +157,7 @@ class Checker:
 
     def __init__(self, ctx, tools, exe):
         self.cache = {}
+        self.reported = set()
         self.pending = []
         self.buf = []
         self.ctx = ctx
@@ -201,9 +216,14 @@ class Checker:
                 if self.case_distinct:
                     self.distinct.add(hash(self.case_distinct))
                 for v in self.buf:
+                    # one report per class (the first case that shows it); the counts are in the evidence
+                    if v["key"] in self.reported:
+                        continue
+                    self.reported.add(v["key"])
                     self.ctx.violation(v["what"], files=v["files"], key=v["key"], broken=v.get("broken"))
             if not again:
                 break
+
             uniq = {}
             for k, j in self.pending:
                 uniq.setdefault(k, j)
@@ -564,10 +584,10 @@ class Checker:
                     continue
                 cls = node_class(l["e"], decls)
                 if sp[0] == "err":
-                    self.finding(case, "override-fn-eval:%s:error-required" % cls, "let %s: WGSL requires an error (%s), ProcessOverrides folded it to %s" % (l["name"], sp[1], lit_str(got)))
+                    self.finding(case, "override-fn-eval:%s:error-required" % strip_type(cls), "let %s: WGSL requires an error (%s), ProcessOverrides folded it to %s" % (l["name"], sp[1], lit_str(got)))
                     break
                 if got != G.norm_lit(sp[1]):
-                    key = "override-fn-eval:" + cls
+                    key = "override-fn-eval:" + strip_type(cls)
                     if cls.split(":")[0] in ("i32", "u32") and cls.split(":")[1] in ("+", "-", "*", "unary-"):
                         key += ":overflow"
                     self.finding(case, key, "let %s = %s: WGSL value %s, ProcessOverrides folded it to %s" % (
@@ -616,7 +636,7 @@ class Checker:
                     cls = self.blame_expr(case, decls[:i], d["init"], t, which="model_msl")
                     if cls is None:
                         break
-                    key = "msl-override-eval:" + cls
+                    key = "msl-override-eval:" + strip_type(cls)
                 self.finding(case, key, "override %s: WGSL value %s, msl.Compile(PipelineConstants) emitted `%s`" % (d["name"], lit_str(s[1]), msl_vals[i]))
                 break
 
@@ -753,7 +773,7 @@ def run(ctx):
     rng = ctx.rng.fork("c14")
     nconv, badconv = goconv_tie(ctx, tools, exe, rng.fork("conv"), ctx.scale(400, 20000))
     # programs
-    n = ctx.scale(900, 60000)
+    n = ctx.scale(500, 60000)
     cases = []
     for i in range(n):
         kind = ["unit", "unit", "mixed", "values", "mixed"][i % 5]
